@@ -55,3 +55,25 @@ Definition api_cv_as_stoploss (v : val) : val :=
               ([] :: must_haps y) in
   VL (map (fun p => let mine := filter (fun d => eq_seq (getS p) (fst d)) ders in
                     ofB (nonempty mine && forallb snd mine)) (getL (argn 3 v))).
+
+(* [x; asrec; peptides] -> obliged derivations on the AS backbone of the given peptides:
+   [[peptide; [[s; e; alt] ...] (records of the haplotype, backbone coordinates); start; a; b] ...]   (diagnosis / signatures) *)
+Definition api_cv_as_must_derivs (v : val) : val :=
+  let x := cv_input (argn 0 v) in
+  let r := cv_asrec (argn 1 v) in
+  let peps := getSS (argn 2 v) in
+  let y := as_apply_gen false x r in
+  if as_must_ok x r then
+  VL (flat_map (fun h =>
+        let hs := apply_hap (in_tx y) h in
+        flat_map (fun st =>
+          let tr := translate_from hs st (map (shift h) (in_sec y)) in
+          flat_map (fun sp => match sp with (a, b, f, q) =>
+                      if mem_seq q peps then
+                        [VL [ofS q; VL (map (fun w => VL [VZ (v_s w); VZ (v_e w); ofS (v_alt w)]) h);
+                             VZ st; VZ (Z.of_nat a); VZ (Z.of_nat b)]]
+                      else [] end)
+                   (span_products y (must_nf y) (must_tail y) tr))
+          (must_starts y hs))
+      ([] :: must_haps y))
+  else VL [].
